@@ -277,7 +277,8 @@ Replayable ==
 
 \* All behaviours are model-checked; in the thorough tier only a deterministic sample of the (several
 \* hundred thousand) complete behaviours of the big profiles is printed for replay.
-EmitMod == IF Thorough /\ Profile \in {"core", "caps", "gc", "ckpt"} THEN 4 ELSE 1
+EmitMod == IF ~Thorough THEN 1
+           ELSE CASE Profile \in {"core", "gc"} -> 16 [] Profile = "caps" -> 8 [] Profile = "ckpt" -> 4 [] OTHER -> 1
 RECURSIVE HistSum(_)
 HistSum(i) == IF i = 0 THEN 0
               ELSE (i * (hist[i].atoms + 3 * hist[i].heap + 7 * hist[i].pairs + 11 * hist[i].ret) + HistSum(i - 1)) % 1009
